@@ -279,6 +279,11 @@ def mergeOracle (c : Json) : R (Option Json) := do
     | some ta =>
       -- A itself is created by merging into an empty config under optsA
       let (ga, fsa) ← fieldSpecs ((optField c "optsA").getD (.arr #[]))
+      -- list-index and `*` segments are outside the oracle (checked against the model only)
+      let hasIdxSeg (fs : List (List String × Handling)) : Bool :=
+        fs.any (fun (p, _) => p.any (fun seg => seg == "*" || seg == "**" || (IntLit.parseIntS seg).isSome))
+      let stepSpecs ← steps.mapM (fun s => fieldSpecs ((optField s "opts").getD (.arr #[])))
+      if hasIdxSeg fsa || stepSpecs.any (fun (_, fs) => hasIdxSeg fs) then return none
       let t0 := Spec.C01.merge (Spec.C01.polOf ga fsa) [] (.node [] []) ta
       let rec go (t : Spec.C01.T) : List Json → R (Option Spec.C01.T)
         | [] => pure (some t)
@@ -437,6 +442,105 @@ def runConv (std : Stdlib) (c : Json) : R (Json × Option Json × Option String)
       | none, none => if (optField impl "err").isSome then some okOracle else some (failOracle "crashed")
   pure (model, oracle, none)
 
+/-- the Go value Unpack(&interface{}) produced, as an input value again -/
+partial def dataToGo : Data → GoData
+  | .nil => .nil
+  | .bool b => .bool b
+  | .int i => .int i
+  | .uint n => .uint n
+  | .float f => .float f
+  | .str s => .str s
+  | .arr l => .list (l.map dataToGo)
+  | .map m => .map (m.map (fun (k, v) => (k, dataToGo v)))
+
+/-- a nil-valued setting and an absent one are the same datum (nil = empty) -/
+partial def dropNil : Data → Data
+  | .map m =>
+    let m' := (m.map (fun (k, v) => (k, dropNil v))).filter (fun (_, v) => match v with | .nil => false | _ => true)
+    if m'.isEmpty then .nil else .map m'
+  | .arr l => .arr (l.map dropNil)
+  | d => d
+
+def viewErrOnly {α : Type} (r : Outcome α) : Json :=
+  match r with
+  | .err e => Json.mkObj [("err", Json.mkObj [("reason", .str e.reason.name), ("typed", .bool e.typed)])]
+  | .panic s => Json.mkObj [("panic", .str s)]
+  | .fuel => Json.mkObj [("fuel", .bool true)]
+  | .ok _ => .null
+
+/-- reverse every map's entry order (a second iteration order for C09) -/
+partial def reverseMaps : GoData → GoData
+  | .map m => .map ((m.map (fun (k, v) => (k, reverseMaps v))).reverse)
+  | .list l => .list (l.map reverseMaps)
+  | .strct fs => .strct (fs.map (fun (g, t, v) => (g, t, reverseMaps v)))
+  | d => d
+
+/-- C05/C09 "norm": NewFrom(from) -> view; feed the unpacked data back; count distinct outcomes over key orders.
+Oracle: the view equals the plain tree `plain` (when given) / duplicateKey when `dup`; idempotent; one outcome. -/
+def runNorm (c : Json) : R (Json × Option Json × Option String) := do
+  let o ← getOpts c "opts"
+  let d ← parseGoData ((optField c "from").getD .null)
+  let r1 := newFrom o d
+  let r2 := newFrom o (reverseMaps d)
+  let dv (v : Val) : Json := match viewP v with
+    | .ok vw => Json.mkObj [("ok", Json.mkObj [
+        ("dict", match dropNil (.map vw.dict) with | .map m => .mkObj (m.map (fun (k, d) => (k, dataJson d))) | _ => .mkObj []),
+        ("arr", .arr ((vw.arr.map dropNil).map dataJson).toArray)])]
+    | r => viewErrOnly r
+  let view1 := match r1 with | .ok v => dv v | r => viewErrOnly r
+  let view2 := match r2 with | .ok v => dv v | r => viewErrOnly r
+  let again : Json := match r1 with
+    | .ok v =>
+      (match viewP v with
+       | .ok vw =>
+         let src : GoData := if vw.isArray && !vw.isDict then .list (vw.arr.map dataToGo)
+           -- Unpack into map[string]interface{} does not store settings whose value is nil
+           else .map ((vw.dict.filter (fun (_, x) => match x with | .nil => false | _ => true)).map (fun (k, x) => (k, dataToGo x)))
+         (match newFrom {} src with | .ok v2 => dv v2 | r => viewErrOnly r)
+       | _ => .null)
+    | _ => .null
+  let model := Json.mkObj [("first", view1), ("again", again),
+    ("outcomes", .num (if view1.compress == view2.compress then 1 else 2))]
+  let oracle : Option Json ← match optField c "impl" with
+    | none => pure none
+    | some impl => do
+      let first := (optField impl "first").getD .null
+      let againI := (optField impl "again").getD .null
+      let n := natField impl "outcomes"
+      if n != 1 then pure (some (failOracle s!"{n} different outcomes for identical arguments (map iteration order)"))
+      else if boolFieldD c "dup" false then
+        match (optField first "err").bind (optField · "reason") with
+        | some (.str "duplicateKey") => pure (some okOracle)
+        | _ => pure (some (failOracle "an input that defines the same setting twice was not rejected as a duplicate"))
+      else match optField c "plain" with
+        | none => pure none
+        | some pj => do
+          let plain ← parseGoData pj
+          match specTree plain, optField first "ok" with
+          | some t, some okv => do
+            let dict ← dataOfJson (Json.mkObj [("m", (optField okv "dict").getD (.mkObj []))])
+            let arr ← dataOfJson (Json.mkObj [("a", (optField okv "arr").getD (.arr #[]))])
+            let (ed, ea) := match t with
+              | .node dd l => (Spec.C01.render (.node dd []), Spec.C01.render (.node [] l))
+              | .leaf _ => (Data.nil, Data.nil)
+            if !(dataNumEq (dropNil (Spec.C01.canon dict)) (dropNil (Spec.C01.canon ed)) &&
+                 dataNumEq (dropNil (Spec.C01.canon arr)) (dropNil (Spec.C01.canon ea))) then
+              pure (some (failOracle "the config does not unpack to the data it was created from"))
+            else
+              -- idempotence: the re-created config unpacks to the same data
+              match optField againI "ok" with
+              | some ok2 => do
+                let d2 ← dataOfJson (Json.mkObj [("m", (optField ok2 "dict").getD (.mkObj []))])
+                let a2 ← dataOfJson (Json.mkObj [("a", (optField ok2 "arr").getD (.arr #[]))])
+                if dataNumEq (dropNil (Spec.C01.canon d2)) (dropNil (Spec.C01.canon dict)) &&
+                   dataNumEq (dropNil (Spec.C01.canon a2)) (dropNil (Spec.C01.canon arr))
+                then pure (some okOracle)
+                else pure (some (failOracle "feeding the unpacked data back in gives a different config"))
+              | none => pure (some (failOracle "feeding the unpacked data back in failed"))
+          | _, none => pure (some (failOracle "creating a config from plain data failed"))
+          | none, _ => pure none
+  pure (model, oracle, none)
+
 def runFull (std : Stdlib) (c : Json) : R (Json × Option Json × Option String) := do
   let k ← strField c "k"
   match k with
@@ -445,6 +549,7 @@ def runFull (std : Stdlib) (c : Json) : R (Json × Option Json × Option String)
   | "merge" => do pure ((← runMerge c), (← mergeOracle c), none)
   | "ops" => do pure ((← runOpsCase std c), none, none)
   | "conv" => runConv std c
+  | "norm" => runNorm c
   | _ => do pure ((← runCase std c), none, none)
 
 partial def loop (std : Stdlib) (h : IO.FS.Stream) (out : IO.FS.Stream) : IO Unit := do
